@@ -144,6 +144,8 @@ def scenario(run, rng, pv, idx):
         conn = pc.make_connection(server.port, rec, early_listener=False,
                                   allowed_versions={pv})
         def send_hook(kind, proxy, data):
+            if kind != 'send':
+                return
             p = current_outgoing_packet()
             if p is None:
                 state['unattributed'] = state.get('unattributed', 0) + 1
